@@ -1682,9 +1682,10 @@ impl<R: Relation> Circuit<F> for MidnightCircuit<'_, R> {
         }
 
         if let Some(b64_chip) = zk_std_lib.base64_chip {
-            if *zk_std_lib.used_base64.borrow() {
-                b64_chip.load(&mut layouter)?;
-            }
+            // Unlike the other lookups, the deactivated Base64 lookup evaluates to a non-zero
+            // default entry, which has to be in the table on every row: the table is needed
+            // whenever the chip is configured, even if the relation never decodes anything.
+            b64_chip.load(&mut layouter)?;
         }
 
         if let Some(automaton_chip) = zk_std_lib.automaton_chip {
